@@ -3,4 +3,5 @@ pub mod clsgrp;
 pub mod factor;
 pub mod lanczos;
 pub mod lattice;
+pub mod multicaller;
 pub mod relstore;
